@@ -958,6 +958,8 @@ package http2
 //@ # a chunk is at most one maximum-size DATA frame
 //@ ensures chunk: len(strm.pendingData) <= 16384 || sameslice(strm.pendingData, old(strm.pendingData))
 //@ ensures stream: strm.bodyStream == old(strm.bodyStream)
+//@ # a successful refill yields data, the end of the body, or both (a reader returning 0, nil is reported as an error)
+//@ ensures progress: r0 == nil ==> len(strm.pendingData) > 0 || strm.pendingEnd
 
 //@ func io.Reader.Read
 //@ trusted
@@ -977,10 +979,11 @@ package http2
 //@ loop 0: invariant ledger: strm.window == old(strm.window) - sent && sc.clientWindow == old(sc.clientWindow) - sent && sent >= 0
 //@ loop 0: invariant ptrs: scOK(sc) && strm != nil
 //@ # every DATA frame fits the stream window, the connection window and the smallest legal SETTINGS_MAX_FRAME_SIZE
-//@ assert@call:(*serverConn).write#1 fits: step >= 1 && step <= strm.window && step <= sc.clientWindow && step <= 16384 && len(chunk) == step
+//@ # (the only empty frame is the one that carries END_STREAM after the reader has ended)
+//@ assert@call:(*serverConn).write#1 fits: ((step >= 1 && step <= strm.window && step <= sc.clientWindow && step <= 16384) || (step == 0 && end)) && len(chunk) == step
 //@ # END_STREAM goes out exactly once: nothing is sent after it ...
 //@ assert@call:(*serverConn).write#1 once: !ended
-//@ loop 0: invariant notended: !ended || (len(strm.pendingData) == 0 && strm.pendingEnd)
+//@ loop 0: invariant notended: !ended && strm.bodyStream == old(strm.bodyStream) && (old(strm.pendingEnd) ==> strm.pendingEnd)
 //@ ghost@call:(*serverConn).write#1 sent = sent + step
 //@ ghost@call:(*serverConn).write#1 ended = ended || end
 //@ ensures ledger: strm.window == old(strm.window) - sent && sc.clientWindow == old(sc.clientWindow) - sent && sent >= 0
